@@ -63,10 +63,8 @@ func (executor *ParallelExecutor) Execute(ctx *ExecutionContext) (map[string]int
 	// a wait group so we know when we're done with all of the steps
 	stepWg := &sync.WaitGroup{}
 
-	// and a channel for errors
+	// a lock for the list of errors
 	errMutex := &sync.Mutex{}
-	errCh := make(chan error, maxResultBuffer)
-	defer close(errCh)
 
 	// a channel to close the goroutine
 	closeCh := make(chan bool)
@@ -105,18 +103,14 @@ func (executor *ParallelExecutor) Execute(ctx *ExecutionContext) (map[string]int
 				// acumulator.
 				insertErr := executorInsertObject(ctx, result, resultLock, payload.InsertionPoint, payload.Result)
 
-				switch {
-				case payload.Err != nil: // response errors are the highest priority to return
-					errCh <- payload.Err
-				case insertErr != nil:
-					errCh <- insertErr
-				default:
-					ctx.logger.Debug("Done. ", result)
-					// one of the queries is done
-					stepWg.Done()
+				// response errors are the highest priority to return
+				err := payload.Err
+				if err == nil {
+					err = insertErr
 				}
-			case err := <-errCh:
 				if err != nil {
+					// record the error here: forwarding it through a bounded channel that only
+					// this goroutine drains would block it once enough steps fail at the same time
 					errMutex.Lock()
 					// if the error was a list
 					var errList graphql.ErrorList
@@ -126,8 +120,11 @@ func (executor *ParallelExecutor) Execute(ctx *ExecutionContext) (map[string]int
 						errs = append(errs, err)
 					}
 					errMutex.Unlock()
-					stepWg.Done()
+				} else {
+					ctx.logger.Debug("Done. ", result)
 				}
+				// one of the queries is done
+				stepWg.Done()
 			// we're done
 			case <-closeCh:
 				return
